@@ -30,7 +30,8 @@ RULE = ('chains: every (chain table, index read by a caller with non-zero multip
         'runs of power_array; inverses: every multiple of 0.01 degC in [0.01, tcritical] and [350, 590] plus end '
         'points and their ulp neighbours, and log-spaced pressure lattices for the reverse direction; identity / '
         'monotonicity / viscosity: every state of the region 1, 2 (T x log-spaced p) and region 3 (T x density) '
-        'lattices; boundaries: lattices along 350 degC, b23, the saturation line; classifier: (T lattice + ulp '
+        'lattices, which include exactly the critical density and the critical temperature +- 1 ulp (the zeros of the '
+        'reduced variables of the viscosity correlation); boundaries: lattices along 350 degC, b23, the saturation line; classifier: (T lattice + ulp '
         'neighbours of 0.01, 350, tcritical, 590, 800) x (p lattice + ulp neighbours of 0, 100 MPa, sat(T), '
         'b23p(T)).  One evaluation = one oracle decision on one state; distinct = distinct (clause, state); '
         'non-trivial = the state lies inside the range the clause quantifies over (outer neighbours of a limit are '
@@ -342,6 +343,38 @@ def rev_lattice(lo, hi, n):
 # (3) + (4): region lattices
 # ----------------------------------------------------------------------------------------------------------
 
+def with_critical_t(ts, lo, hi):
+    """The temperature lattice plus tcritical and its two neighbours (1/Tbar - 1 = 0 in the viscosity
+    correlation) where they lie in [lo, hi]."""
+    pts = set(ts)
+    for x in R.around(R.TCRIT97):
+        if lo <= x <= hi:
+            pts.add(x)
+    return sorted(pts)
+
+
+def r2_ts(P):
+    return with_critical_t(R.t_lattice(R.T_MAX, P['tstep']), R.T_MIN, R.T_MAX)
+
+
+def r3_ts(P):
+    return with_critical_t(R.t_lattice(R.T_23_END, P['tstep'], R.T_13), R.T_13, R.T_23_END)
+
+
+def r3_densities(dstep):
+    """The density lattice plus exactly the critical density (rhobar - 1 = 0 in the viscosity correlation).
+    Its ulp neighbours are not added: pressures one ulp of density apart cannot be ordered reliably."""
+    return sorted(set(R.density_lattice(dstep)) | set([R.DCRIT97]))
+
+
+def singular_class(t, d=None):
+    if d is not None and R.down(R.DCRIT97) <= d <= R.up(R.DCRIT97):
+        return 'd~dcritical'
+    if R.down(R.TCRIT97) <= t <= R.up(R.TCRIT97):
+        return 'T~tcritical'
+    return None
+
+
 def r1_pressures(I, t, n):
     return R.logspace(need('sat', I.sat, t), R.P_MAX, n)
 
@@ -363,7 +396,7 @@ def chk_state_tp(I, reg, t, p):
     Returns (viols, measures, outcome, density)."""
     name = 'cowat' if reg == 1 else 'supst'
     f = I.cowat if reg == 1 else I.supst
-    b = band(t)
+    b = singular_class(t) or band(t)
     m = {}
     viols = []
     try:
@@ -422,7 +455,7 @@ def chk_monotone_tp(I, reg, t, plist):
 
 def r3_isotherm(I, t, dstep):
     """[(d, p, u, branch)] - region 3 states of the density lattice on isotherm t."""
-    ds = R.density_lattice(dstep)
+    ds = r3_densities(dstep)
     pu = [call('super', I.super, d, t) for d in ds]
     ps = [float(x[0]) for x in pu]
     n = len(ds)
@@ -455,7 +488,7 @@ def r3_isotherm(I, t, dstep):
 
 
 def chk_state_dt(I, d, t):
-    b = band(t, 50.)
+    b = singular_class(t, d) or band(t, 50.)
     m = {}
     viols = []
     try:
@@ -779,8 +812,8 @@ def units(tier):
     us.append(('b23inv_p',))
     t1 = R.t_lattice(R.T_13, P['tstep'])
     t2 = R.t_lattice(R.T_MAX, P['tstep'])
-    t3 = R.t_lattice(R.T_23_END, P['tstep'], R.T_13)
-    for reg, ts, k in ((1, t1, P['tchunk']), (2, t2, 2 * P['tchunk']), (3, t3, max(2, P['tchunk'] // 2))):
+    t3 = r3_ts(P)
+    for reg, ts, k in ((1, t1, P['tchunk']), (2, r2_ts(P), 2 * P['tchunk']), (3, t3, max(2, P['tchunk'] // 2))):
         for ch in t_chunks(ts, k):
             us.append(('lattice', reg, ch[0], ch[-1]))
     us.append(('x13',))
@@ -868,7 +901,7 @@ def _explore(I, unit, tier, rec, W):
     elif kind == 'lattice':
         reg, lo, hi = unit[1], unit[2], unit[3]
         if reg in (1, 2):
-            ts = sub(R.t_lattice(R.T_13 if reg == 1 else R.T_MAX, P['tstep']), lo, hi)
+            ts = sub(R.t_lattice(R.T_13, P['tstep']) if reg == 1 else r2_ts(P), lo, hi)
             plist = []
             for t in ts:
                 try:
@@ -891,7 +924,7 @@ def _explore(I, unit, tier, rec, W):
             rec.sample({'clause': 'lattice', 'region': reg, 't': ts[-1], 'pressures': plist[:1] + plist[-1:],
                         'isotherms': len(ts)})
         else:
-            ts = sub(R.t_lattice(R.T_23_END, P['tstep'], R.T_13), lo, hi)
+            ts = sub(r3_ts(P), lo, hi)
             nst = 0
             for t in ts:
                 try:
